@@ -42,14 +42,16 @@ def roundrobin(vals, k):
 
 
 def first_fit(vals, C):
-    bins = []
+    bins, sums = [], []
     for v in vals:
-        for b in bins:
-            if sum(b) + v <= C:
-                b.append(v)
+        for i in range(len(bins)):
+            if sums[i] + v <= C:
+                bins[i].append(v)
+                sums[i] += v
                 break
         else:
             bins.append([v])
+            sums.append(v)
     return bins
 
 
@@ -59,16 +61,18 @@ def first_fit_decreasing(vals, C):
 
 def best_fit(vals, C):
     """Fullest bin that still fits (first such bin on ties)."""
-    bins = []
+    bins, sums = [], []
     for v in vals:
         best = None
-        for b in bins:
-            if sum(b) + v <= C and (best is None or sum(b) > sum(best)):
-                best = b
+        for i in range(len(bins)):
+            if sums[i] + v <= C and (best is None or sums[i] > sums[best]):
+                best = i
         if best is None:
             bins.append([v])
+            sums.append(v)
         else:
-            best.append(v)
+            bins[best].append(v)
+            sums[best] += v
     return bins
 
 
